@@ -1,1 +1,67 @@
-// Kani harnesses (cfg(kani) only); pulled in by a #[path] hook in /repo.
+// Kani harnesses for rustemo::lr::parser (cfg(kani) only; child module, so ParseStack and LRParser::next_token are in reach).
+// Twins of the Verus obligations on ParseStack (counterexamples + fallback when an edit leaves Verus's subset),
+// and the token-selection logic of LRParser::next_token (C06 longest match, C02 partial-parse STOP).
+use super::*;
+use crate::lr::context::LRContext;
+use crate::position::{LineColumn, Position};
+
+#[derive(Debug, Default, Clone, Copy, PartialEq, Eq)]
+pub(crate) struct St(pub u8);
+impl State for St {
+    fn default_layout() -> Option<Self> {
+        None
+    }
+}
+#[derive(Debug, Default, Clone, Copy, PartialEq, Eq)]
+pub(crate) struct Tk(pub u8);
+
+pub(crate) fn any_pos() -> Position {
+    Position { pos: kani::any(), line_col: if kani::any() { Some(LineColumn { line: kani::any(), column: kani::any() }) } else { None } }
+}
+pub(crate) fn any_span() -> SourceSpan {
+    SourceSpan { start: any_pos(), end: any_pos() }
+}
+type Ctx<'i> = LRContext<'i, [u8], St, Tk>;
+
+/// Twin of lr_stack::ParseStack::{new,push_state,pop_states,state}: bounded(stack depth <= 4), spans/states symbolic.
+#[kani::proof]
+#[kani::unwind(7)]
+fn twin_parse_stack() {
+    let mut ctx: Ctx = LRContext::new(any_pos());
+    let s0 = any_span();
+    ctx.set_span(s0);
+    let mut stack: ParseStack<St, [u8], Ctx, Tk> = ParseStack::new(&mut ctx, St(0));
+    assert!(stack.stack.len() == 1 && stack.stack[0].span == s0 && stack.state() == St(0));
+    let n: usize = kani::any();
+    kani::assume(n <= 3);
+    let spans = [any_span(), any_span(), any_span()];
+    let mut i = 0;
+    while i < n {
+        ctx.set_span(spans[i]);
+        stack.push_state(&mut ctx, St(i as u8 + 1));
+        assert!(ctx.state() == St(i as u8 + 1));
+        i += 1;
+    }
+    assert!(stack.stack.len() == n + 1);
+    let last = any_span();
+    let pos = any_pos();
+    ctx.set_span(last);
+    ctx.set_position(pos);
+    let k: usize = kani::any();
+    kani::assume(k <= n);
+    let (state, span) = stack.pop_states(&mut ctx, k);
+    // C02: pops exactly k entries, returns the state now on top
+    assert!(stack.stack.len() == n + 1 - k);
+    assert!(state == St((n - k) as u8) && stack.state() == state);
+    if k > 0 {
+        // C13: first popped start .. last popped end
+        assert!(span.start == spans[n - k].start && span.end == spans[n - 1].end);
+    } else {
+        // C13: EMPTY: zero width, at the end of the last shifted token or at the lookahead position
+        assert!(span.start == span.end);
+        assert!(span.start == last.end || (last.end.pos <= pos.pos && span.start == pos));
+    }
+    assert!(ctx.span() == last && ctx.position() == pos);
+    kani::cover!(k == 0 && n == 3, "empty reduction on a deep stack");
+    kani::cover!(k == 3, "pop three");
+}
